@@ -71,6 +71,41 @@ def sig_of_pairs(pairs):
     return out
 
 
+def comment_edges(text):
+    """for every comment token of the text, in order: is its Comment group the FIRST child of its token list (or preceded
+    by `(`) in the grouped tree?  That is the one situation in which StripCommentsFilter leaves no blank behind (known
+    finding C08-strip-comments-glues-neighbours); a glue anywhere else is a different failure."""
+    import sqlparse
+    from sqlparse import sql, tokens as T
+    out = []
+    try:
+        stmts = sqlparse.parse(text)
+    except Exception:  # noqa
+        return None
+    for st in stmts:
+        stack = [st]
+        order = []
+        # iterative pre-order keeping document order
+        todo = [(st, 0)]
+        while todo:
+            node, i = todo.pop()
+            if i >= len(node.tokens):
+                continue
+            todo.append((node, i + 1))
+            t = node.tokens[i]
+            if isinstance(t, sql.Comment):
+                prev = node.tokens[i - 1] if i > 0 else None
+                edge = prev is None or (prev.ttype is T.Punctuation and prev.value == '(')
+                n = sum(1 for x in t.flatten() if x.ttype in T.Comment)
+                out += [edge] * n
+            elif t.is_group:
+                todo.append((t, 0))
+            elif t.ttype in T.Comment:
+                prev = node.tokens[i - 1] if i > 0 else None
+                out.append(prev is None or (prev.ttype is T.Punctuation and prev.value == '('))
+    return out
+
+
 def lex_all(text):
     from sqlparse import lexer, tokens as T
     out = []
@@ -89,6 +124,14 @@ def format_trace(tid, text, opt, second=True):
     tr = {'id': tid, 'opt': dict(opt), 'text': cps(text), 'exc': '', 'stmts': [], 'out': [], 'outtoks': [],
           'insig': sig_of_pairs(lexer.tokenize(text)), 'outsig': [], 'nin': -1, 'nout': -1, 'out2': [], 'out2sig': [], 'wrapped_ok': True,
           'stages': []}
+    edges = comment_edges(text)
+    ci = 0
+    for e in tr['insig']:
+        if e['k'] in ('cmt', 'hint'):
+            e['edge'] = bool(edges[ci]) if edges is not None and ci < len(edges) else True
+            ci += 1
+        else:
+            e['edge'] = False
     try:
         out = sqlparse.format(text, **dict(kw))
     except SQLParseError:
